@@ -1,6 +1,7 @@
 package chk
 
 import (
+	"bytes"
 	"errors"
 	"fmt"
 	"strings"
@@ -10,7 +11,9 @@ import (
 
 	datatransfer "github.com/filecoin-project/go-data-transfer/v2"
 	"github.com/filecoin-project/go-data-transfer/v2/message"
+	"github.com/filecoin-project/go-data-transfer/v2/message/types"
 
+	"verif/harness/internal/cborx"
 	"verif/harness/internal/doubles"
 	"verif/harness/internal/gen"
 	"verif/harness/internal/vf"
@@ -134,6 +137,16 @@ func TestC04New(t *testing.T) {
 		w, err := doubles.Reencode(req)
 		if err != nil {
 			panic(err)
+		}
+		if shape == 3 && r.Intn(2) == 0 {
+			// the other way a voucher can be missing - only the wire can say it: a registered voucher TYPE
+			// with a null voucher (the constructors write an empty type when there is no voucher)
+			splain, _ := cborx.Decode(mustHex(doubles.CBOR(gen.AllSelector)))
+			wire := cborx.Encode(reqMap(uint64(types.NewMessage), uint64(tid), false, pull, dummyCid, splain, nil, gen.Pick(r, regTypes), nil))
+			if m, err := message.FromNet(bytes.NewReader(wire)); err == nil {
+				w = m
+				c.Count("typed_null_voucher_requests", 1)
+			}
 		}
 		nnet, ntp := f.net.Len(), f.tp.Len()
 		var returned datatransfer.Response
